@@ -125,4 +125,458 @@ theorem handle_spec (lib : Lib) (m : Mgr) (r : Req) :
       · left; simpa using h2
       · right; exact h2
 
+theorem not_mem_removeConnectionOptions (conn : List String) :
+    fwdName ∉ removeConnectionOptions conn ∧ epName ∉ removeConnectionOptions conn := by
+  constructor <;> simp [removeConnectionOptions, List.mem_filter]
+
+/-- the forwarded request always carries the marker -/
+theorem forwardReq_forwarded (r : Req) : (forwardReq r).forwarded = true := by
+  simp [forwardReq, proxySend, (not_mem_removeConnectionOptions r.conn).1, Req.forwarded]
+
+/-- regression (1c64d44): before the repair a client `Connection: x-piko-forward` made the
+forwarding step drop the marker it had just set -/
+theorem forwardReqUnrepaired_loses_marker (r : Req) (h : fwdName ∈ r.conn) :
+    (forwardReqUnrepaired r).forwarded = false := by
+  simp [forwardReqUnrepaired, proxySend, h, Req.forwarded]
+
+/-- the forwarding step leaves `Host`, the path and the `x-piko-endpoint` header alone, so the
+receiver derives the same endpoint -/
+theorem endpointOf_forwardReq (lib : Lib) (r : Req) :
+    endpointOf lib (forwardReq r) = endpointOf lib r := by
+  simp [forwardReq, proxySend, (not_mem_removeConnectionOptions r.conn).2, endpointOf]
+
+/-! ### unfolding `routeAt` -/
+
+theorem routeAt_terminal (lib : Lib) (fuel : Nat) (w : World) (n : String) (r : Req) (ch : List Nat)
+    (m m' : Mgr) (hn : w.nodes.find n = some m) :
+    (handle lib m r = (.reply400, m') → routeAt lib (fuel + 1) w n r ch =
+        ({ visited := [n], outcome := .badRequest n }, { w with nodes := w.nodes.insert n m' })) ∧
+    (∀ e u, handle lib m r = (.serve e u, m') → routeAt lib (fuel + 1) w n r ch =
+        ({ visited := [n], outcome := .served n e u }, { w with nodes := w.nodes.insert n m' })) ∧
+    (handle lib m r = (.reply502, m') → routeAt lib (fuel + 1) w n r ch =
+        ({ visited := [n], outcome := .noUpstream n }, { w with nodes := w.nodes.insert n m' })) ∧
+    (handle lib m r = (.fault, m') → routeAt lib (fuel + 1) w n r ch =
+        ({ visited := [n], outcome := .fault n }, { w with nodes := w.nodes.insert n m' })) := by
+  refine ⟨?_, ?_, ?_, ?_⟩
+  · intro hh; rw [routeAt, hn]; simp only [hh]
+  · intro e u hh; rw [routeAt, hn]; simp only [hh]
+  · intro hh; rw [routeAt, hn]; simp only [hh]
+  · intro hh; rw [routeAt, hn]; simp only [hh]
+
+theorem routeAt_forward (lib : Lib) (fuel : Nat) (w : World) (n : String) (r : Req) (ch : List Nat)
+    (m m' : Mgr) (e : String) (cands : List Cluster.Node) (r' : Req)
+    (hn : w.nodes.find n = some m) (hh : handle lib m r = (.forward e cands r', m')) :
+    routeAt lib (fuel + 1) w n r ch =
+      match pickCand cands (ch.headD 0) with
+      | none => ({ visited := [n], outcome := .fault n }, { w with nodes := w.nodes.insert n m' })
+      | some c =>
+        match w.listen.find c.proxyAddr with
+        | none => ({ visited := [n], via := [(n, c.id)], outcome := .unreachable },
+                   { w with nodes := w.nodes.insert n m' })
+        | some k =>
+          ({ visited := n :: (routeAt lib fuel { w with nodes := w.nodes.insert n m' } k r' ch.tail).1.visited,
+             via := (n, c.id) :: (routeAt lib fuel { w with nodes := w.nodes.insert n m' } k r' ch.tail).1.via,
+             outcome := (routeAt lib fuel { w with nodes := w.nodes.insert n m' } k r' ch.tail).1.outcome },
+           (routeAt lib fuel { w with nodes := w.nodes.insert n m' } k r' ch.tail).2) := by
+  rw [routeAt, hn]
+  simp only [hh]
+  cases pickCand cands (ch.headD 0) with
+  | none => rfl
+  | some c =>
+    simp only
+    cases w.listen.find c.proxyAddr <;> rfl
+
+theorem pickCand_mem {cands : List Cluster.Node} {i : Nat} {c : Cluster.Node}
+    (h : pickCand cands i = some c) : c ∈ cands := List.mem_of_getElem? h
+
+theorem pickCand_some_of_ne {cands : List Cluster.Node} (h : cands ≠ []) (i : Nat) :
+    ∃ c, pickCand cands i = some c := by
+  have hpos : 0 < cands.length := List.length_pos_iff.mpr h
+  have : i % cands.length < cands.length := Nat.mod_lt _ hpos
+  exact ⟨cands[i % cands.length], by simp [pickCand, List.getElem?_eq_getElem this]⟩
+
+/-! ### hop bounds -/
+
+/-- a request that carries the marker ends at the node that receives it -/
+theorem routeAt_forwarded (lib : Lib) (fuel : Nat) (w : World) (n : String) (r : Req) (ch : List Nat)
+    (hf : r.forwarded = true) :
+    (routeAt lib fuel w n r ch).1.visited.length ≤ 1 ∧ (routeAt lib fuel w n r ch).1.via = [] ∧
+    (1 ≤ fuel → (routeAt lib fuel w n r ch).1.outcome ≠ .outOfFuel) := by
+  cases fuel with
+  | zero => simp [routeAt]
+  | succ fuel =>
+    cases hn : w.nodes.find n with
+    | none => rw [routeAt, hn]; simp
+    | some m =>
+      rcases handle_spec lib m r with ⟨_, hh⟩ | ⟨e, _, ⟨lb, u, lb', _, _, _, _, hh⟩ | ⟨lb, _, hh, _⟩ |
+          ⟨_, h2, _, hh⟩ | ⟨_, _, hh⟩⟩
+      · rw [(routeAt_terminal lib fuel w n r ch m _ hn).1 hh]; simp
+      · rw [(routeAt_terminal lib fuel w n r ch m _ hn).2.1 _ _ hh]; simp
+      · rw [(routeAt_terminal lib fuel w n r ch m _ hn).2.2.2 hh]; simp
+      · rw [hf] at h2; simp at h2
+      · rw [(routeAt_terminal lib fuel w n r ch m _ hn).2.2.1 hh]; simp
+
+theorem routeAt_hops (lib : Lib) (fuel : Nat) (w : World) (n : String) (r : Req) (ch : List Nat) :
+    (routeAt lib fuel w n r ch).1.visited.length ≤ 2 ∧ (routeAt lib fuel w n r ch).1.via.length ≤ 1 ∧
+    (2 ≤ fuel → (routeAt lib fuel w n r ch).1.outcome ≠ .outOfFuel) := by
+  cases fuel with
+  | zero => simp [routeAt]
+  | succ fuel =>
+    cases hn : w.nodes.find n with
+    | none => rw [routeAt, hn]; simp
+    | some m =>
+      rcases handle_spec lib m r with ⟨_, hh⟩ | ⟨e, _, ⟨lb, u, lb', _, _, _, _, hh⟩ | ⟨lb, _, hh, _⟩ |
+          ⟨_, h2, _, hh⟩ | ⟨_, _, hh⟩⟩
+      · rw [(routeAt_terminal lib fuel w n r ch m _ hn).1 hh]; simp
+      · rw [(routeAt_terminal lib fuel w n r ch m _ hn).2.1 _ _ hh]; simp
+      · rw [(routeAt_terminal lib fuel w n r ch m _ hn).2.2.2 hh]; simp
+      · rw [routeAt_forward lib fuel w n r ch m m e _ _ hn hh]
+        cases pickCand (m.cluster.lookupCandidates e) (ch.headD 0) with
+        | none => simp
+        | some c =>
+          simp only
+          cases w.listen.find c.proxyAddr with
+          | none => simp
+          | some k =>
+            simp only
+            obtain ⟨a1, a2, a3⟩ := routeAt_forwarded lib fuel { w with nodes := w.nodes.insert n m } k
+              (forwardReq r) ch.tail (forwardReq_forwarded r)
+            refine ⟨?_, ?_, ?_⟩
+            · simp only [List.length_cons]; omega
+            · simp [a2]
+            · intro h2; exact a3 (by omega)
+      · rw [(routeAt_terminal lib fuel w n r ch m _ hn).2.2.1 hh]; simp
+
+/-- the upstreams registered at node `k` for endpoint `e` (`[]` for an unknown node) -/
+def World.reg (w : World) (k e : String) : List Nat := ((w.nodes.find k).map (·.registry e)).getD []
+
+/-- every node's manager carries its own id -/
+def WId (w : World) : Prop := ∀ n m, w.nodes.find n = some m → m.cluster.localId = n
+
+/-- every node's balancers satisfy the cursor invariant (true of every reachable manager) -/
+def WOk (w : World) : Prop := ∀ n m, w.nodes.find n = some m → LbOk m
+
+theorem handle_preserves (lib : Lib) (m : Mgr) (r : Req) :
+    (handle lib m r).2.cluster = m.cluster ∧ (∀ e', (handle lib m r).2.registry e' = m.registry e') ∧
+    (LbOk m → LbOk (handle lib m r).2) := by
+  rcases handle_spec lib m r with ⟨_, hh⟩ | ⟨e, _, ⟨lb, u, lb', h1, _, h3, h4, hh⟩ | ⟨lb, _, hh, _⟩ |
+      ⟨_, _, _, hh⟩ | ⟨_, _, hh⟩⟩
+  · rw [hh]; exact ⟨rfl, fun _ => rfl, id⟩
+  · rw [hh]
+    exact ⟨rfl, fun e' => registry_insert_sameUps m e lb lb' h1 h3 e', lbOk_insert m e lb lb' h1 h3 h4⟩
+  · rw [hh]; exact ⟨rfl, fun _ => rfl, id⟩
+  · rw [hh]; exact ⟨rfl, fun _ => rfl, id⟩
+  · rw [hh]; exact ⟨rfl, fun _ => rfl, id⟩
+
+/-- the world after node `n`'s handler ran -/
+def World.set (w : World) (n : String) (m' : Mgr) : World := { w with nodes := w.nodes.insert n m' }
+
+theorem set_inv (w : World) (n : String) (m m' : Mgr) (hn : w.nodes.find n = some m)
+    (hc : m'.cluster = m.cluster) (hr : ∀ e', m'.registry e' = m.registry e') (hl : LbOk m → LbOk m') :
+    (∀ k e, (w.set n m').reg k e = w.reg k e) ∧ (w.set n m').listen = w.listen ∧
+    (WId w → WId (w.set n m')) ∧ (WOk w → WOk (w.set n m')) := by
+  refine ⟨?_, rfl, ?_, ?_⟩
+  · intro k e
+    unfold World.reg World.set
+    simp only [AMap.find_insert]
+    by_cases h : n = k
+    · subst h; simp [hn, hr]
+    · simp [h]
+  · intro hw k mk hk
+    unfold World.set at hk
+    simp only [AMap.find_insert] at hk
+    by_cases h : n = k
+    · simp only [h, if_true, Option.some.injEq] at hk
+      subst hk; rw [hc, hw n m hn, h]
+    · simp only [h, if_false] at hk; exact hw k mk hk
+  · intro hw k mk hk
+    unfold World.set at hk
+    simp only [AMap.find_insert] at hk
+    by_cases h : n = k
+    · simp only [h, if_true, Option.some.injEq] at hk
+      subst hk; exact hl (hw n m hn)
+    · simp only [h, if_false] at hk; exact hw k mk hk
+
+theorem set_handle_inv (lib : Lib) (w : World) (n : String) (m : Mgr) (r : Req) (hn : w.nodes.find n = some m) :
+    (∀ k e, (w.set n (handle lib m r).2).reg k e = w.reg k e) ∧ (w.set n (handle lib m r).2).listen = w.listen ∧
+    (WId w → WId (w.set n (handle lib m r).2)) ∧ (WOk w → WOk (w.set n (handle lib m r).2)) := by
+  obtain ⟨a, b, c⟩ := handle_preserves lib m r
+  exact set_inv w n m _ hn a b c
+
+/-- routing never changes who is registered where, who listens where, nor the invariants -/
+theorem routeAt_world (lib : Lib) : ∀ (fuel : Nat) (w : World) (n : String) (r : Req) (ch : List Nat),
+    (∀ k e, (routeAt lib fuel w n r ch).2.reg k e = w.reg k e) ∧ (routeAt lib fuel w n r ch).2.listen = w.listen ∧
+    (WId w → WId (routeAt lib fuel w n r ch).2) ∧ (WOk w → WOk (routeAt lib fuel w n r ch).2) := by
+  intro fuel
+  induction fuel with
+  | zero => intro w n r ch; simp [routeAt]
+  | succ fuel ih =>
+    intro w n r ch
+    cases hn : w.nodes.find n with
+    | none => rw [routeAt, hn]; simp
+    | some m =>
+      have hs := set_handle_inv lib w n m r hn
+      rcases handle_spec lib m r with ⟨_, hh⟩ | ⟨e, _, ⟨lb, u, lb', _, _, _, _, hh⟩ | ⟨lb, _, hh, _⟩ |
+          ⟨_, h2, _, hh⟩ | ⟨_, _, hh⟩⟩
+      · rw [(routeAt_terminal lib fuel w n r ch m _ hn).1 hh]; rw [hh] at hs; exact hs
+      · rw [(routeAt_terminal lib fuel w n r ch m _ hn).2.1 _ _ hh]; rw [hh] at hs; exact hs
+      · rw [(routeAt_terminal lib fuel w n r ch m _ hn).2.2.2 hh]; rw [hh] at hs; exact hs
+      · rw [routeAt_forward lib fuel w n r ch m m e _ _ hn hh]
+        rw [hh] at hs
+        cases pickCand (m.cluster.lookupCandidates e) (ch.headD 0) with
+        | none => exact hs
+        | some c =>
+          simp only
+          cases w.listen.find c.proxyAddr with
+          | none => exact hs
+          | some k =>
+            simp only
+            obtain ⟨i1, i2, i3, i4⟩ := ih (w.set n m) k (forwardReq r) ch.tail
+            obtain ⟨s1, s2, s3, s4⟩ := hs
+            refine ⟨fun k' e' => ?_, ?_, fun h => i3 (s3 h), fun h => i4 (s4 h)⟩
+            · exact (i1 k' e').trans (s1 k' e')
+            · exact i2.trans s2
+      · rw [(routeAt_terminal lib fuel w n r ch m _ hn).2.2.1 hh]; rw [hh] at hs; exact hs
+
+theorem reg_of_find {w : World} {n : String} {m : Mgr} (hn : w.nodes.find n = some m) (e : String) :
+    w.reg n e = m.registry e := by simp [World.reg, hn]
+
+/-- whoever serves, serves the endpoint the request names, with an upstream registered for it there -/
+theorem routeAt_served (lib : Lib) : ∀ (fuel : Nat) (w : World) (n : String) (r : Req) (ch : List Nat)
+    (k e : String) (u : Nat), (routeAt lib fuel w n r ch).1.outcome = .served k e u →
+    u ∈ w.reg k e ∧ endpointOf lib r = some e ∧ (routeAt lib fuel w n r ch).1.visited.getLast? = some k := by
+  intro fuel
+  induction fuel with
+  | zero => intro w n r ch k e u h; simp [routeAt] at h
+  | succ fuel ih =>
+    intro w n r ch k e u h
+    cases hn : w.nodes.find n with
+    | none => rw [routeAt, hn] at h; simp at h
+    | some m =>
+      rcases handle_spec lib m r with ⟨_, hh⟩ | ⟨e0, he0, ⟨lb, u0, lb', h1, h2, _, _, hh⟩ | ⟨lb, _, hh, _⟩ |
+          ⟨_, _, _, hh⟩ | ⟨_, _, hh⟩⟩
+      · rw [(routeAt_terminal lib fuel w n r ch m _ hn).1 hh] at h; simp at h
+      · rw [(routeAt_terminal lib fuel w n r ch m _ hn).2.1 _ _ hh] at h ⊢
+        simp only [Outcome.served.injEq] at h
+        obtain ⟨rfl, rfl, rfl⟩ := h
+        refine ⟨?_, he0, by simp⟩
+        rw [reg_of_find hn, registry_of_find h1]; exact h2
+      · rw [(routeAt_terminal lib fuel w n r ch m _ hn).2.2.2 hh] at h; simp at h
+      · rw [routeAt_forward lib fuel w n r ch m m e0 _ _ hn hh] at h ⊢
+        cases hp : pickCand (m.cluster.lookupCandidates e0) (ch.headD 0) with
+        | none => rw [hp] at h; simp at h
+        | some c =>
+          rw [hp] at h; simp only at h ⊢
+          cases hl : w.listen.find c.proxyAddr with
+          | none => rw [hl] at h; simp at h
+          | some k' =>
+            rw [hl] at h; simp only at h ⊢
+            obtain ⟨j1, j2, j3⟩ := ih _ k' (forwardReq r) ch.tail k e u h
+            have hs := (set_handle_inv lib w n m r hn).1 k e
+            rw [hh] at hs
+            refine ⟨?_, ?_, ?_⟩
+            · rw [← hs]; exact j1
+            · rw [← endpointOf_forwardReq lib r]; exact j2
+            · rw [List.getLast?_cons]
+              cases hv : (routeAt lib fuel { nodes := AMap.insert w.nodes n m, listen := w.listen } k' (forwardReq r) ch.tail).1.visited.getLast? with
+              | none => rw [hv] at j3; simp at j3
+              | some x => rw [hv] at j3; simpa using j3
+      · rw [(routeAt_terminal lib fuel w n r ch m _ hn).2.2.1 hh] at h; simp at h
+
+/-- forwarding decisions never name the forwarding node itself -/
+theorem routeAt_no_self (lib : Lib) : ∀ (fuel : Nat) (w : World) (n : String) (r : Req) (ch : List Nat),
+    WId w → ∀ p ∈ (routeAt lib fuel w n r ch).1.via, p.1 ≠ p.2 := by
+  intro fuel
+  induction fuel with
+  | zero => intro w n r ch _ p hp; simp [routeAt] at hp
+  | succ fuel ih =>
+    intro w n r ch hw p hp
+    cases hn : w.nodes.find n with
+    | none => rw [routeAt, hn] at hp; simp at hp
+    | some m =>
+      rcases handle_spec lib m r with ⟨_, hh⟩ | ⟨e0, he0, ⟨lb, u0, lb', h1, h2, _, _, hh⟩ | ⟨lb, _, hh, _⟩ |
+          ⟨_, _, _, hh⟩ | ⟨_, _, hh⟩⟩
+      · rw [(routeAt_terminal lib fuel w n r ch m _ hn).1 hh] at hp; simp at hp
+      · rw [(routeAt_terminal lib fuel w n r ch m _ hn).2.1 _ _ hh] at hp; simp at hp
+      · rw [(routeAt_terminal lib fuel w n r ch m _ hn).2.2.2 hh] at hp; simp at hp
+      · rw [routeAt_forward lib fuel w n r ch m m e0 _ _ hn hh] at hp
+        cases hpc : pickCand (m.cluster.lookupCandidates e0) (ch.headD 0) with
+        | none => rw [hpc] at hp; simp at hp
+        | some c =>
+          have hc := pickCand_mem hpc
+          have hne : n ≠ c.id := by
+            unfold Cluster.State.lookupCandidates at hc
+            simp only [List.mem_filter, Bool.and_eq_true, Bool.not_eq_true', decide_eq_false_iff_not] at hc
+            rw [hw n m hn] at hc
+            exact fun h => hc.2.1.1 h.symm
+          rw [hpc] at hp; simp only at hp
+          cases hl : w.listen.find c.proxyAddr with
+          | none =>
+            rw [hl] at hp; simp only [List.mem_singleton] at hp
+            subst hp; exact hne
+          | some k' =>
+            rw [hl] at hp; simp only [List.mem_cons] at hp
+            rcases hp with hp | hp
+            · subst hp; exact hne
+            · have hs := (set_handle_inv lib w n m r hn).2.2.1 hw
+              rw [hh] at hs
+              exact ih _ k' (forwardReq r) ch.tail hs p hp
+      · rw [(routeAt_terminal lib fuel w n r ch m _ hn).2.2.1 hh] at hp; simp at hp
+
+/-- a node with a local upstream for the endpoint serves the request itself -/
+theorem routeAt_local (lib : Lib) (fuel : Nat) (w : World) (n : String) (r : Req) (ch : List Nat)
+    (m : Mgr) (e : String) (hn : w.nodes.find n = some m) (hok : LbOk m)
+    (he : endpointOf lib r = some e) (hreg : m.registry e ≠ []) :
+    ∃ u, u ∈ m.registry e ∧
+      (routeAt lib (fuel + 1) w n r ch).1 = { visited := [n], via := [], outcome := .served n e u } := by
+  rcases handle_spec lib m r with ⟨h0, _⟩ | ⟨e0, he0, ⟨lb, u0, lb', h1, h2, _, _, hh⟩ | ⟨lb, h1, _, h3⟩ |
+      ⟨h1, _, _, _⟩ | ⟨h1, _, _⟩⟩
+  · rw [he] at h0; simp at h0
+  · rw [he] at he0; simp only [Option.some.injEq] at he0; subst he0
+    refine ⟨u0, by rw [registry_of_find h1]; exact h2, ?_⟩
+    rw [(routeAt_terminal lib fuel w n r ch m _ hn).2.1 _ _ hh]
+  · exact absurd (hok e0 lb h1) h3
+  · rw [he] at he0; simp only [Option.some.injEq] at he0; subst he0
+    exact absurd (registry_of_none h1) hreg
+  · rw [he] at he0; simp only [Option.some.injEq] at he0; subst he0
+    exact absurd (registry_of_none h1) hreg
+
+/-- routing information has settled: every row a node holds about another node is that
+node's truth (active, its real listening address, "serves e" exactly when it has an upstream
+for e), and every node has a row for every other node -/
+structure Settled (w : World) : Prop where
+  ids : WId w
+  ok : WOk w
+  rows_sound : ∀ n m, w.nodes.find n = some m → ∀ c ∈ m.cluster.nodes.vals, c.id ≠ n →
+    c.status = .active ∧ w.listen.find c.proxyAddr = some c.id ∧
+    ∃ mk, w.nodes.find c.id = some mk ∧ ∀ e, (c.serves e = true ↔ mk.registry e ≠ [])
+  rows_complete : ∀ n m k mk, w.nodes.find n = some m → w.nodes.find k = some mk → k ≠ n →
+    ∃ c ∈ m.cluster.nodes.vals, c.id = k
+
+theorem mem_lookupCandidates {s : Cluster.State} {e : String} {c : Cluster.Node} :
+    c ∈ s.lookupCandidates e ↔ c ∈ s.nodes.vals ∧ c.id ≠ s.localId ∧ c.status = .active ∧ c.serves e = true := by
+  unfold Cluster.State.lookupCandidates
+  simp only [List.mem_filter, Bool.and_eq_true, Bool.not_eq_true', decide_eq_false_iff_not, decide_eq_true_eq]
+  constructor
+  · rintro ⟨a, ⟨b, c'⟩, d⟩; exact ⟨a, b, c', d⟩
+  · rintro ⟨a, b, c', d⟩; exact ⟨a, ⟨b, c'⟩, d⟩
+
+theorem route_settled (lib : Lib) (w : World) (hs : Settled w) (fuel : Nat) (n : String) (m : Mgr)
+    (hn : w.nodes.find n = some m) (r : Req) (hnf : r.forwarded = false) (e : String)
+    (he : endpointOf lib r = some e) (ch : List Nat) :
+    ((∃ k, w.reg k e ≠ []) → ∃ k u, (routeAt lib (fuel + 2) w n r ch).1.outcome = .served k e u ∧ u ∈ w.reg k e) ∧
+    ((∀ k, w.reg k e = []) → (routeAt lib (fuel + 2) w n r ch).1 = { visited := [n], via := [], outcome := .noUpstream n }) := by
+  have hid : m.cluster.localId = n := hs.ids n m hn
+  by_cases hreg : m.registry e = []
+  swap
+  · obtain ⟨u, hu, hr⟩ := routeAt_local lib (fuel + 1) w n r ch m e hn (hs.ok n m hn) he hreg
+    refine ⟨fun _ => ⟨n, u, by rw [hr], by rw [reg_of_find hn]; exact hu⟩, fun h => ?_⟩
+    have := h n; rw [reg_of_find hn] at this; exact absurd this hreg
+  rcases handle_spec lib m r with ⟨h0, _⟩ | ⟨e0, he0, ⟨lb, u0, lb', h1, h2, _, _, hh⟩ | ⟨lb, h1, _, h3⟩ |
+      ⟨h1, _, hc, hh⟩ | ⟨h1, h2, hh⟩⟩
+  · rw [he] at h0; simp at h0
+  · rw [he] at he0; simp only [Option.some.injEq] at he0; subst he0
+    rw [registry_of_find h1] at hreg
+    exact absurd hreg (hs.ok n m hn e lb h1).1
+  · exact absurd (hs.ok n m hn e0 lb h1) h3
+  · rw [he] at he0; simp only [Option.some.injEq] at he0; subst he0
+    obtain ⟨c, hpc⟩ := pickCand_some_of_ne hc (ch.headD 0)
+    have hcm := mem_lookupCandidates.mp (pickCand_mem hpc)
+    rw [hid] at hcm
+    obtain ⟨hact, hlis, mk, hk, hsv⟩ := hs.rows_sound n m hn c hcm.1 hcm.2.1
+    have hkreg : mk.registry e ≠ [] := (hsv e).mp hcm.2.2.2
+    rw [routeAt_forward lib (fuel + 1) w n r ch m m e _ _ hn hh, hpc]
+    simp only [hlis]
+    have hk' : ({ w with nodes := w.nodes.insert n m } : World).nodes.find c.id = some mk := by
+      simp only [AMap.find_insert]
+      have : ¬ n = c.id := fun h => hcm.2.1 h.symm
+      simp [this, hk]
+    obtain ⟨u, hu, hr⟩ := routeAt_local lib fuel { w with nodes := w.nodes.insert n m } c.id (forwardReq r)
+      ch.tail mk e hk' (hs.ok c.id mk hk) (by rw [endpointOf_forwardReq]; exact he) hkreg
+    refine ⟨fun _ => ⟨c.id, u, by rw [hr], by rw [reg_of_find hk]; exact hu⟩, fun h => ?_⟩
+    have := h c.id; rw [reg_of_find hk] at this; exact absurd this hkreg
+  · rw [he] at he0; simp only [Option.some.injEq] at he0; subst he0
+    have hc : m.cluster.lookupCandidates e = [] := by
+      rcases h2 with h2 | h2
+      · rw [hnf] at h2; simp at h2
+      · exact h2
+    rw [(routeAt_terminal lib (fuel + 1) w n r ch m _ hn).2.2.1 hh]
+    refine ⟨fun ⟨k, hk⟩ => ?_, fun _ => rfl⟩
+    exfalso
+    have hkn : k ≠ n := by
+      intro h; subst h; rw [reg_of_find hn] at hk; exact hk hreg
+    cases hkf : w.nodes.find k with
+    | none => simp [World.reg, hkf] at hk
+    | some mk =>
+      rw [reg_of_find hkf] at hk
+      obtain ⟨c, hcv, hcid⟩ := hs.rows_complete n m k mk hn hkf hkn
+      have hcn : c.id ≠ n := by rw [hcid]; exact hkn
+      obtain ⟨hact, _, mk', hk', hsv⟩ := hs.rows_sound n m hn c hcv hcn
+      rw [hcid, hkf] at hk'
+      simp only [Option.some.injEq] at hk'; subst hk'
+      have : c ∈ m.cluster.lookupCandidates e :=
+        mem_lookupCandidates.mpr ⟨hcv, by rw [hid]; exact hcn, hact, (hsv e).mpr hk⟩
+      rw [hc] at this; simp at this
+
+/-- a request without an endpoint is answered 400 by the node that receives it -/
+theorem routeAt_badRequest (lib : Lib) (fuel : Nat) (w : World) (n : String) (m : Mgr) (r : Req)
+    (ch : List Nat) (hn : w.nodes.find n = some m) (he : endpointOf lib r = none) :
+    (routeAt lib (fuel + 1) w n r ch).1 = { visited := [n], via := [], outcome := .badRequest n } := by
+  rcases handle_spec lib m r with ⟨_, hh⟩ | ⟨e0, he0, _⟩
+  · rw [(routeAt_terminal lib fuel w n r ch m _ hn).1 hh]
+  · rw [he] at he0; simp at he0
+
+/-- one handler invocation on a request that carries the marker -/
+theorem handle_forwarded (lib : Lib) (m : Mgr) (r : Req) (hf : r.forwarded = true) :
+    (endpointOf lib r = none ∧ (handle lib m r).1 = .reply400) ∨
+    (∃ e, endpointOf lib r = some e ∧
+      ((∃ u, u ∈ m.registry e ∧ (handle lib m r).1 = .serve e u) ∨
+       (m.registry e = [] ∧ (handle lib m r).1 = .reply502) ∨
+       (¬ LbOk m ∧ (handle lib m r).1 = .fault))) := by
+  rcases handle_spec lib m r with ⟨h0, hh⟩ | ⟨e0, he0, ⟨lb, u0, lb', h1, h2, _, _, hh⟩ | ⟨lb, h1, hh, h3⟩ |
+      ⟨_, h2, _, _⟩ | ⟨h1, _, hh⟩⟩
+  · left; exact ⟨h0, by rw [hh]⟩
+  · right; exact ⟨e0, he0, Or.inl ⟨u0, by rw [registry_of_find h1]; exact h2, by rw [hh]⟩⟩
+  · right; exact ⟨e0, he0, Or.inr (Or.inr ⟨fun h => h3 (h e0 lb h1), by rw [hh]⟩)⟩
+  · rw [hf] at h2; simp at h2
+  · right; exact ⟨e0, he0, Or.inr (Or.inl ⟨registry_of_none h1, by rw [hh]⟩)⟩
+
+/-- only the node the request entered at ever forwards -/
+theorem routeAt_via_entry (lib : Lib) (fuel : Nat) (w : World) (n : String) (r : Req) (ch : List Nat) :
+    ∀ p ∈ (routeAt lib fuel w n r ch).1.via, p.1 = n := by
+  cases fuel with
+  | zero => simp [routeAt]
+  | succ fuel =>
+    cases hn : w.nodes.find n with
+    | none => rw [routeAt, hn]; simp
+    | some m =>
+      rcases handle_spec lib m r with ⟨_, hh⟩ | ⟨e, _, ⟨lb, u, lb', _, _, _, _, hh⟩ | ⟨lb, _, hh, _⟩ |
+          ⟨_, h2, _, hh⟩ | ⟨_, _, hh⟩⟩
+      · rw [(routeAt_terminal lib fuel w n r ch m _ hn).1 hh]; simp
+      · rw [(routeAt_terminal lib fuel w n r ch m _ hn).2.1 _ _ hh]; simp
+      · rw [(routeAt_terminal lib fuel w n r ch m _ hn).2.2.2 hh]; simp
+      · rw [routeAt_forward lib fuel w n r ch m m e _ _ hn hh]
+        cases pickCand (m.cluster.lookupCandidates e) (ch.headD 0) with
+        | none => simp
+        | some c =>
+          simp only
+          cases w.listen.find c.proxyAddr with
+          | none => simp
+          | some k =>
+            simp only
+            obtain ⟨_, a2, _⟩ := routeAt_forwarded lib fuel { w with nodes := w.nodes.insert n m } k
+              (forwardReq r) ch.tail (forwardReq_forwarded r)
+            simp [a2]
+      · rw [(routeAt_terminal lib fuel w n r ch m _ hn).2.2.1 hh]; simp
+
+/-- every manager state reachable from a fresh node by AddConn/RemoveConn/Select, paired with
+ANY routing view, satisfies the balancer invariant the routing theorems assume -/
+theorem lbOk_reach_view (id proxy admin : String) (ops : List Op) (view : Cluster.State) :
+    LbOk { reach id proxy admin ops with cluster := view } :=
+  (inv_reach id proxy admin ops).lbs
+
+theorem registry_reach_view (id proxy admin : String) (ops : List Op) (view : Cluster.State) (e : String) :
+    ({ reach id proxy admin ops with cluster := view } : Mgr).registry e = refRun ops e :=
+  registry_reach id proxy admin ops e
+
 end Piko.Proxy
